@@ -182,7 +182,10 @@ def real_call(contract, kwargs):
     orig_of = {"__keep": (kw, old)}
     _pair(kw, old, orig_of)
     try:
-        return {"outcome": "return", "value": obj(**kw), "args_after": kw, "old": old, "orig_of": orig_of}
+        value = obj(**kw)
+        if isinstance(value, map):  # a lazy `map` result is materialised once (the engine's value for it is the list of its items)
+            value = list(value)
+        return {"outcome": "return", "value": value, "args_after": kw, "old": old, "orig_of": orig_of}
     except Exception as e:  # noqa
         return {"outcome": "raise", "value": type(e).__name__, "msg": str(e)[:200], "args_after": kw, "old": old, "orig_of": orig_of,
                 "mro": [c.__name__ for c in type(e).__mro__]}
@@ -390,7 +393,7 @@ def concretize(spec, name, vals, top=True):
         if tag == "lit":
             return spec[1]
         if tag == "strcat":
-            return "".join((vals.get("%s_%d" % (name, i)) if vals.get("%s_%d" % (name, i)) is not None else _DEFAULT_OF["str"]) if part == "str" else part
+            return "".join((vals.get("%s_%d" % (name, i)) if vals.get("%s_%d" % (name, i)) is not None else _DEFAULT_OF["str"]) if (part == "str" or isinstance(part, tuple)) else part
                            for i, part in enumerate(spec[1]))
         if tag == "tuple":
             return tuple(concretize(sp, "%s_%d" % (name, i), vals, False) for i, sp in enumerate(spec[1]))
